@@ -73,6 +73,8 @@ def render_link(l):
         k = _prefix(l["orders"][a["oi"] - 1]) + a["an"]
         keys[i + 1] = k
         d = {"resname": "|".join(a["rn"])}
+        if a.get("mk"):           # a residue-level attribute of the sequence file, handed down to the atoms of the residue
+            d["mark"] = a["mk"]
         if (i + 1) in l["del"]:
             d["replace"] = {"atomname": None}
         elif (i + 1) in rep:
@@ -103,6 +105,20 @@ def render_bib(keys):
                      for k in sorted(keys))
 
 
+def render_file(F, f):
+    """text of one input file: the definitions f["defs"] of force field F in that order, in the syntax f["syn"]"""
+    parts = []
+    for d in f["defs"]:
+        if d["t"] == "b":
+            b = F["blocks"][d["i"] - 1]
+            parts.append(render_block_itp(b) if f["syn"] == "itp" else render_block_ff(b))
+        elif d["t"] == "l":
+            parts.append(render_link(F["links"][d["i"] - 1]))
+        else:
+            parts.append(render_mod(F["mods"][d["i"] - 1]))
+    return "\n".join(parts)
+
+
 _WRITTEN = {}
 
 
@@ -120,17 +136,8 @@ def write_files(wd, F, pres, tag="v", reuse=None):
         return paths
     paths = []
     for k, f in enumerate(pres):
-        parts = []
-        for d in f["defs"]:
-            if d["t"] == "b":
-                b = F["blocks"][d["i"] - 1]
-                parts.append(render_block_itp(b) if f["syn"] == "itp" else render_block_ff(b))
-            elif d["t"] == "l":
-                parts.append(render_link(F["links"][d["i"] - 1]))
-            else:
-                parts.append(render_mod(F["mods"][d["i"] - 1]))
         p = wd / ("%s_%d_src%d.%s" % (tag, k + 1, f.get("src", k + 1), f["syn"]))
-        p.write_text("\n".join(parts))
+        p.write_text(render_file(F, f))
         paths.append(p)
     if F.get("bib"):
         p = wd / ("%s_cite.bib" % tag)
@@ -149,6 +156,8 @@ def node_attrs(case, p):
     d = {"resid": case["start"] + p - 1, "resname": case["rn"][p - 1]}
     if case["fi"][p - 1]:
         d["from_itp"] = case["fi"][p - 1]
+    if case.get("mark") and case["mark"][p - 1]:
+        d["mark"] = case["mark"][p - 1]
     return d
 
 
@@ -360,6 +369,8 @@ def history_main(argv):
     res = []
     for run in spec["runs"]:
         run = {k: v for k, v in run.items() if k != "declared_failure"}
+        for path, text in run.get("write", []):     # the file system is state outside the process: an input file (re)written before this call
+            Path(path).write_text(text)
         out = Path(run["out"])
         before = out.read_text() if out.exists() else None
         sys.argv = ["polyply", "gen_params"] + [str(a) for a in run.get("argv", [])]
